@@ -172,6 +172,10 @@ def get_normalized_hostname(url, normalize_amp=True, infer_redirection=True):
     if isinstance(url, SplitResult):
         splitted = url
     else:
+        # NOTE: same cleaning as in normalize_url, else a leading control
+        # character hides the protocol
+        url = CONTROL_CHARS_RE.sub("", url)
+
         try:
             splitted = urlsplit(ensure_protocol(url.strip()))
         except ValueError:
